@@ -83,6 +83,16 @@ func parseStream(in []byte) ([]*cm.RootBlock, cm.ReferenceMap, error) {
 	return blocks, refs, err
 }
 
+// eolVariants returns the input with every LF replaced by CRLF and by CR, for
+// inputs that contain LF and no CR (the alphabets that reach most constructs
+// are written with LF only).
+func eolVariants(in []byte) [][]byte {
+	if bytes.IndexByte(in, '\n') < 0 || bytes.IndexByte(in, '\r') >= 0 {
+		return nil
+	}
+	return [][]byte{bytes.ReplaceAll(in, []byte{'\n'}, []byte("\r\n")), bytes.ReplaceAll(in, []byte{'\n'}, []byte{'\r'})}
+}
+
 func clone(b []byte) []byte { return append([]byte(nil), b...) }
 
 func isWS(c byte) bool { return c == ' ' || c == '\t' || c == '\n' || c == '\r' }
